@@ -12,6 +12,7 @@ MC_PROPS = ["InvTypeOK", "InvFresh"], ["PropAtomic", "PropSetAttrIsWith", "PropC
 
 def mc_scenario(rep, tmp, name, maxlen=2, workers=8):
     mc = S.model_constants(name)
+    maxlen = S.SCENARIOS[name].get("maxlen", maxlen)
     d = os.path.join(tmp, name)
     os.makedirs(d, exist_ok=True)
     with open(os.path.join(d, "MC_SpecClass.tla"), "w") as f:
